@@ -594,22 +594,32 @@ func (tree *MutableTree) enableFastStorageAndCommitIfNotEnabled() (bool, error) 
 func (tree *MutableTree) enableFastStorageAndCommit() error {
 	var err error
 
-	itr := NewIterator(nil, nil, true, tree.ImmutableTree)
+	_, latestVersion, err := tree.ndb.getLatestVersion()
+	if err != nil {
+		return err
+	}
+
+	// The fast index describes the latest version and is labelled with it, so it has
+	// to be built from the latest version even if this tree has loaded an older one.
+	latest := tree.ImmutableTree
+	if latest.version > 0 && latest.version != latestVersion {
+		latest, err = tree.GetImmutable(latestVersion)
+		if err != nil {
+			return err
+		}
+	}
+
+	itr := NewIterator(nil, nil, true, latest)
 	defer itr.Close()
 	var upgradedFastNodes uint64
 	for ; itr.Valid(); itr.Next() {
 		upgradedFastNodes++
-		if err = tree.ndb.SaveFastNodeNoCache(fastnode.NewNode(itr.Key(), itr.Value(), tree.version)); err != nil {
+		if err = tree.ndb.SaveFastNodeNoCache(fastnode.NewNode(itr.Key(), itr.Value(), latest.version)); err != nil {
 			return err
 		}
 	}
 
 	if err = itr.Error(); err != nil {
-		return err
-	}
-
-	_, latestVersion, err := tree.ndb.getLatestVersion()
-	if err != nil {
 		return err
 	}
 
